@@ -372,6 +372,7 @@ def teardown(ctx):
     for c in range(n_children):
         env = dict(os.environ)
         env["PYTHONHASHSEED"] = str(1000 + 7919 * c + ctx.shard)
+        env["TZ"] = ["JST-9", "EST5EDT", "UTC0", "NST3:30NDT"][c % 4]        # ... and in other time zones
         env["PYTHONPATH"] = os.pathsep.join([REPO, HOME])
         env["PYTHONDONTWRITEBYTECODE"] = "1"
         try:
@@ -389,11 +390,14 @@ def teardown(ctx):
             got = json.loads(line)
             ctx.ev()
             ctx.count("cross_process_ids")
-            for route in ("parse", "ctor"):
-                if got[route] != want:
-                    ctx.violation("id-differs-across-processes", "a fresh interpreter (PYTHONHASHSEED=%s) derived %s, this process %s" % (
-                        env["PYTHONHASHSEED"], got[route], want), {"input": o, "this_process": want, "child": got, "hash_seed": env["PYTHONHASHSEED"]})
+            for route in ("parse", "ctor", "ctor-naive"):
+                if route in got and got[route] != want and not (route == "ctor-naive" and got[route].startswith("ERR")):
+                    ctx.violation("id-differs-across-processes" + (":naive-datetime-read-in-local-zone" if route == "ctor-naive" and got["ctor"] == want else ""),
+                                  "a fresh interpreter (PYTHONHASHSEED=%s, TZ=%s) derived %s via %s, this process %s" % (env["PYTHONHASHSEED"], env["TZ"], got[route], route, want),
+                                  {"input": o, "this_process": want, "child": got, "hash_seed": env["PYTHONHASHSEED"], "TZ": env["TZ"]})
                     break
+                if route == "ctor-naive" and route in got:
+                    ctx.count("cross_process_naive_datetime_ids")
 
 
 WORKLOADS = [
